@@ -454,7 +454,7 @@ impl Phase for C14Search {
     fn runs(&self) -> u64 { self.runs }
     fn generate(&self, seed: u64, run: u64) -> Gen {
         let mut rng = Rng::for_run(seed, self.id(), run);
-        Gen::plain(Scenario::Hist(gen_hist(&mut rng, self.max_len)))
+        Gen::plain(Scenario::Hist(super::hist::gen_hist_with(&mut rng, self.max_len, false)))
     }
     fn execute(&self, g: &Gen, _run: u64, st: &mut Stats) -> Exec {
         match &g.sc {
